@@ -115,10 +115,14 @@ def ys(draw, m, kinds=None, nonconstant=False):
     return dict(kind=kind, y=y)
 
 
-def jump_ratio_ok(y, bound=2.0 ** 30):
-    """Design section 3 / finding KF-2: the ratio of non-zero neighbouring jumps stays below 2**30."""
+def jump_ratio_ok(y, bound=2.0 ** 30, smooth=1.0):
+    """Design section 3 / finding KF-2: the adaptive factor (ratio of non-zero neighbouring jumps, raised to
+    adaptive_smooth) stays within [2**-30, 2**30]."""
     d = [abs(b - a) for a, b in zip(y[:-1], y[1:]) if b != a]
-    return not d or max(d) / min(d) <= bound
+    if not d:
+        return True
+    import math
+    return math.log2(max(d) / min(d)) * max(smooth, 1e-9) <= math.log2(bound)
 
 
 @st.composite
